@@ -371,9 +371,12 @@ class Stream(object):
         Returns:
             str: ``chunked``, ``length``, ``close``.
         '''
-        chunked_match = re.match(
-            r'chunked($|;)',
-            response.fields.get('Transfer-Encoding', '')
+        # RFC 7230 section 3.3.3: chunked applies when it is the final transfer
+        # coding; coding names are case-insensitive.
+        chunked_match = re.fullmatch(
+            r'(.*,)?[ \t]*chunked[ \t]*(;[^,]*)?[ \t]*',
+            response.fields.get('Transfer-Encoding', ''),
+            re.IGNORECASE
         )
 
         if chunked_match:
@@ -440,12 +443,10 @@ class Stream(object):
 
 def is_no_body(request, response, no_content_codes=DEFAULT_NO_CONTENT_CODES):
     '''Return whether a content body is not expected.'''
-    if 'Content-Length' not in response.fields \
-            and 'Transfer-Encoding' not in response.fields \
-            and (
-                response.status_code in no_content_codes
-                or request.method.upper() == 'HEAD'
-            ):
+    # RFC 7230 section 3.3.3: these responses never have a body, whatever
+    # Content-Length or Transfer-Encoding fields they carry.
+    if response.status_code in no_content_codes \
+            or request.method.upper() == 'HEAD':
         return True
     else:
         return False
